@@ -144,7 +144,7 @@ func checkC13(c *Ctx, r *Report) {
 	r.Explanation = c13Explanation
 	r.Trusted = []string{"go/ssa translation", "sync.RWMutex / sync.WaitGroup / sync.Once semantics"}
 	r.Assumptions = []string{"unlockOnce(l) returns a closure that releases l at most once (checked structurally: it wraps once.Do(l.Unlock))"}
-	r.rule("C13.R1.lockset", 15, "Server.started / Server.conns are read under the lock and written under the write lock")
+	r.rule("C13.R1.lockset", 15, "Server.started / Server.conns / Server.PacketConn / Server.Listener are read under the lock and written under the write lock")
 	r.rule("C13.R2.pairing", 8, "every acquisition of Server.lock is released on every path; no re-acquisition while held")
 	r.rule("C13.R3.deadline", 3, "read deadlines are re-armed only while started, inside the RLock region")
 	r.rule("C13.R4.start-stop", 6, "start/shutdown ordering of tests, flag updates, unlocks, reader unblocking and the drain wait")
@@ -180,7 +180,7 @@ func checkC13(c *Ctx, r *Report) {
 		}
 	}
 	fns = uniq
-	guarded := map[string]bool{"started": true, "conns": true}
+	guarded := map[string]bool{"started": true, "conns": true, "PacketConn": true, "Listener": true}
 
 	// entry states: helpers without lock operations inherit the meet over their call sites
 	infos := map[*ssa.Function]*lockInfo{}
@@ -228,6 +228,12 @@ func checkC13(c *Ctx, r *Report) {
 			case *ssa.Store:
 				for fld := range guarded {
 					if readsField("Server", fld)(t.Addr) {
+						// a Server that this function has just allocated is not shared yet (composite literal)
+						if fa, ok := t.Addr.(*ssa.FieldAddr); ok {
+							if al, ok := fa.X.(*ssa.Alloc); ok && al.Parent() == f {
+								continue
+							}
+						}
 						accesses = append(accesses, access{f, in, fld, true})
 					}
 				}
